@@ -29,7 +29,7 @@ COQDIR = os.path.join(ROOT, 'coq')
 WORK = os.path.join(ROOT, 'work', 'decode')
 
 HEADER = '''From Coq Require Import ZArith List Bool.
-From PV Require Import Model.Parse Model.Json Gen.GenSchemas Model.Handlers Model.Decode.
+From PV Require Import Model.Parse Model.Json Gen.GenSchemas Model.Handlers Model.Decode Spec.Fields.
 Import ListNotations.
 Open Scope Z_scope.
 Definition lk (tbl : list (str * Z)) (s : str) : Z :=
@@ -182,6 +182,12 @@ ROUTE_KINDS = [
     ('schema_of_rp_create', 0, 'POST', '/resource_providers', {'name': 'x'}),
     ('schema_of_rp_update', 0, 'PUT', '/resource_providers/%s' % ops.uuid_of(1), {'name': 'x'}),
 ]
+QUERY_KINDS = [
+    # (Coq function of Spec/Fields.v, first version, path with a query that reaches validate_query_params)
+    ('schema_of_get_candidates', 10, '/allocation_candidates?resources=VCPU:1'),
+    ('schema_of_get_rps', 0, '/resource_providers'),
+    ('schema_of_get_usages', 9, '/usages?project_id=p'),
+]
 FIXED_SCHEMAS = [
     # routes that use one schema at every version: (Coq constant the theorems name, method, path, body, versions probed)
     ('S_inventory__PUT_INVENTORY_SCHEMA', 'PUT', '/resource_providers/%s/inventories' % ops.uuid_of(1), {}, (0, 7, 19, 26, 39)),
@@ -206,10 +212,25 @@ def schema_choice(tag):
     def spy(body, schema):
         seen.append(schema)
         return orig(body, schema)
+    orig_q = putil.validate_query_params
+
+    def spy_q(req, schema):
+        seen.append(schema)
+        return orig_q(req, schema)
     putil.extract_json = spy
+    putil.validate_query_params = spy_q
     facts = []
     problems = []
     try:
+        for fn, v0, path in QUERY_KINDS:
+            for v in range(v0, 40):
+                del seen[:]
+                app.request('GET', path, version='1.%d' % v, headers={'x-roles': 'admin,service'})
+                cname = by_id.get(id(seen[0])) if seen else None
+                if cname is None:
+                    problems.append('GET %s at 1.%d does not validate its query with a schema constant' % (path, v))
+                    continue
+                facts.append('%s %d = %s' % (fn, v, cname))
         for fn, v0, method, path, body in ROUTE_KINDS:
             for v in range(v0, 40):
                 del seen[:]
@@ -231,6 +252,7 @@ def schema_choice(tag):
                     problems.append('%s %s at 1.%d validates with %s, the theorems are about %s' % (method, path, v, got, cname))
     finally:
         putil.extract_json = orig
+        putil.validate_query_params = orig_q
         app.close()
     path = os.path.join(WORK, 'schema_choice_%s.v' % tag)
     with open(path, 'w') as f:
